@@ -280,7 +280,16 @@ fn decode_obs<T: Pk>(bytes: &[u8]) -> (String, usize) {
 
 fn mutate(r: &mut Rng, enc: &[u8]) -> Vec<u8> {
     let mut b = enc.to_vec();
-    match r.below(9) {
+    match r.below(12) {
+        9 | 10 | 11 => {
+            // the last byte (the ordinal of a trailing enum field in Handshake / Client Information / Resource Pack
+            // Response) replaced by an ordinal outside every table, including the ones a narrowing cast folds back in
+            let v: i32 = *r.pick(&[-1i32, 3, 4, 8, 9, 127, 128, 255, 256, 257, 258, 259, 260, 263, 264, 513, 65_536, 65_537, 65_538,
+                                   -255, -254, -256, i32::MIN, i32::MIN + 1, i32::MIN + 2, i32::MAX, 16_777_217]);
+            b.pop();
+            let mut u = v as u32;
+            loop { let g = (u & 0x7f) as u8; u >>= 7; if u == 0 { b.push(g); break; } else { b.push(g | 0x80); } }
+        }
         0 => { let n = r.below(b.len() as u64 + 1) as usize; b.truncate(n); }
         1 => { if !b.is_empty() { let i = r.below(b.len() as u64) as usize; b[i] ^= 1 << r.below(8); } }
         2 => { if !b.is_empty() { let i = r.below(b.len() as u64) as usize; b[i] = *r.pick(&[0u8, 1, 2, 3, 7, 8, 0x7f, 0x80, 0xff]); } }
